@@ -311,4 +311,41 @@ example : Settled (run {} Stream.init [.reqParsed true, .connect (.linked 1), .r
 example : (step {} (run {} Stream.init [.reqParsed true, .connect (.linked 1), .reqForwarded,
     .backHead .length false false, .frontFlush]) .backHup).outcome = some (.abort true) := by decide
 
+/-! ### a failed exchange never leaves its backend connection in the pool -/
+
+/-- FULL STATEMENT WANTED: a backend connection is parked for reuse only by an exchange
+    that ended with the backend's own, complete response.
+    PROVED PART: true of every event except the expiry of the backend timer. -/
+theorem C02_failed_exchange_never_pooled_partial (cfg : Cfg) (s : Stream) (e : Ev)
+    (hlive : s.outcome = none) (hne : e ≠ .timeoutBack)
+    (hp : pooledAfter cfg s e = true) :
+    ∃ bs, (step cfg s e).outcome = some (.relayed s.byEof bs) ∧ s.kaBackend = true ∧
+      s.phase = .terminated := by
+  rcases s with ⟨st, att, fc, ph, bs, be, ka, kf, bc, pe, sr, oc⟩
+  simp only at hlive; subst hlive
+  cases e with
+  | frontFlush =>
+    cases st <;> cases ph <;> cases pe <;> cases ka <;>
+      simp_all [pooledAfter, parksBackend, step, Stream.isLinked]
+  | timeoutBack => exact absurd rfl hne
+  | _ => simp [pooledAfter] at hp
+
+/-- The excluded point fails in the model, as in the code (finding class
+    `timed-out-backend-connection-parked-and-reused`): the backend timer fires before the
+    response started, `set_default_answer(504)` puts a *terminated* template into
+    `stream.back`, then the backend connection's `end_stream` sees
+    `keep_alive_backend && back.is_terminated()` and parks a socket on which the backend
+    still owes (and may later send) the answer to the request that just got the 504. -/
+theorem C02_failed_exchange_never_pooled_counterexample :
+    let s := run {} Stream.init [.reqParsed true, .connect (.linked 1), .reqForwarded]
+    pooledAfter {} s .timeoutBack = true ∧ (step {} s .timeoutBack).outcome = some (.default 504 false) := by
+  decide
+
+/-- a parse error, a forced termination, a 502: never parked -/
+example : pooledAfter {} (run {} Stream.init [.reqParsed true, .connect (.linked 1), .reqForwarded])
+    .backParseError = false := by decide
+
+example : pooledAfter {} (run {} Stream.init [.reqParsed true, .connect (.linked 1), .reqForwarded,
+    .backHead .length false false, .backBodyEnd]) .frontFlush = true := by decide
+
 end Sozu.Answers
